@@ -33,14 +33,14 @@ import (
 )
 
 type l2MsgSpec struct {
-	name  string                      // "<protocol package>.<Type>"
-	zero  interface{}                 // pointer to a zero value (field discovery by reflection)
-	ec    elliptic.Curve              // the curve the protocol passes to decoders
-	lens  map[string]int              // nominal length of each list field
-	elems map[string][]int            // element indices to replace (default: first and last)
-	pfx   map[string]map[int]bool     // elements that are length prefixes
-	mods  map[string]string           // which modulus "N" means for a field
-	build func() interface{}          // honest content (worker side)
+	name  string                  // "<protocol package>.<Type>"
+	zero  interface{}             // pointer to a zero value (field discovery by reflection)
+	ec    elliptic.Curve          // the curve the protocol passes to decoders
+	lens  map[string]int          // nominal length of each list field
+	elems map[string][]int        // element indices to replace (default: first and last)
+	pfx   map[string]map[int]bool // elements that are length prefixes
+	mods  map[string]string       // which modulus "N" means for a field
+	build func() interface{}      // honest content (worker side)
 }
 
 type l2Validator interface{ ValidateBasic() bool }
@@ -324,7 +324,9 @@ func l2MessageTargets() []*l2Target {
 				return edsg.NewSignRound2Message(from, l2Commit("edsg2", X.X(), X.Y()).D, pf).Content()
 			}},
 		{name: "eddsa/signing.SignRound3Message", zero: &edsg.SignRound3Message{}, ec: ed,
-			build: func() interface{} { return edsg.NewSignRound3Message(from, c10.Generic("c06l2/msg/eds", ed.Params().N)).Content() }},
+			build: func() interface{} {
+				return edsg.NewSignRound3Message(from, c10.Generic("c06l2/msg/eds", ed.Params().N)).Content()
+			}},
 		// ---- EdDSA resharing
 		{name: "eddsa/resharing.DGRound1Message", zero: &edrs.DGRound1Message{}, ec: ed,
 			build: func() interface{} {
